@@ -4,7 +4,7 @@
    description of a block on disk (hashes, keys are interned to N identifiers; "valid" flags stand for
    the per-object IsValid(networkID), which is not what this property is about -- C27/C28):
 
-     importer  : isaac/block/importer.go   BlockImporter.WriteItem (importItem, import*) + Save
+     importer  : isaac/block/importer.go   BlockImporter.WriteItem (importItem, importOperations etc.) and Save
      validator : isaac/block/validator.go  IsValidBlockFromLocalFS
                  base/block.go             IsValidProposalWithManifest, IsValidOperationsTreeWithManifest,
                                            IsValidStatesTreeWithManifest, IsValidVoteproofsWithManifest
